@@ -43,6 +43,8 @@ STRINGS = STRINGS_CORE + [
     # bare-word candidates that only a more permissive decoder reads as something else
     "12:00-01", "12:00-1", "2001-01-01T12:00-01:30", "12:00:00.5-12", "23:59:60-01", "1:2", "2001-1-1", "12:00z",
     "a-\r\nb", "Jupi-\r\n  ter", "a-\n\n b", "a-\f b", "a-\n\tb", "a-\rb", "a-\n-\nb", "a -\r\n\r\n b",
+    # dash, blanks, line break: NOT a continuation (only a dash directly before the line break is)
+    "a - \nb", "a-\t\r\n b",
     "16#-7F#", "-16#7F#", "3#12#", "10#9#", "1_0", "0x10", "1e", "e5", ".e1", "1.e", "+.", "2001-366", "2000-366",
 ] + [long_string(n) for n in (35, 39, 40, 41, 45, 70, 78, 79, 80, 81, 90, 160)] + [
     "x" * 40, "x" * 41, "y" * 85, ("word " * 30).strip(), "a" * 30 + " " + "b" * 60,
